@@ -132,3 +132,66 @@ func RecvName(e ast.Expr) string {
 	}
 	return "?"
 }
+
+// Literals lists the string and integer literals (in source order) and the names of called
+// functions of a function body: a cheap fingerprint that ties hand-written models of
+// fmt/strings/strconv based code to the source (format strings, separators, bases).
+func (p *Pkg) Literals(fd *ast.FuncDecl) (strs []string, ints []string, calls []string) {
+	if fd == nil || fd.Body == nil {
+		return
+	}
+	ast.Inspect(fd.Body, func(n ast.Node) bool {
+		switch x := n.(type) {
+		case *ast.BasicLit:
+			tv := p.Info.Types[x]
+			if tv.Value != nil {
+				switch tv.Value.Kind() {
+				case constant.String:
+					strs = append(strs, constant.StringVal(tv.Value))
+				case constant.Int:
+					ints = append(ints, tv.Value.ExactString())
+				}
+			}
+		case *ast.CallExpr:
+			switch f := x.Fun.(type) {
+			case *ast.SelectorExpr:
+				if id, ok := f.X.(*ast.Ident); ok {
+					calls = append(calls, id.Name+"."+f.Sel.Name)
+				} else {
+					calls = append(calls, "."+f.Sel.Name)
+				}
+			case *ast.Ident:
+				calls = append(calls, f.Name)
+			}
+		}
+		return true
+	})
+	return
+}
+
+// EmitLiterals renders Literals of the given functions as Coq definitions
+// lits_<Recv>_<Name> : list string, ints_… : list Z, calls_… : list string.
+func EmitLiterals(p *Pkg, keys []string) []byte {
+	var b bytes.Buffer
+	decls := p.FuncDecls()
+	for _, k := range keys {
+		fd := decls[k]
+		name := strings.ReplaceAll(k, ".", "_")
+		if fd == nil {
+			fmt.Fprintf(&b, "(* MISSING %s *)\n", k)
+			continue
+		}
+		s, i, c := p.Literals(fd)
+		var ss, cs []string
+		for _, x := range s {
+			ss = append(ss, CoqString(x))
+		}
+		for _, x := range c {
+			cs = append(cs, CoqString(x))
+		}
+		fmt.Fprintf(&b, "Definition lits_%s : list string := [%s].\n", name, strings.Join(ss, "; "))
+		fmt.Fprintf(&b, "Definition ints_%s : list Z := [%s].\n", name, strings.Join(i, "; "))
+		fmt.Fprintf(&b, "Definition calls_%s : list string := [%s].\n", name, strings.Join(cs, "; "))
+	}
+	return b.Bytes()
+}
